@@ -36,6 +36,10 @@ annotate in place), what already shared it before the call, and - $category only
 whose own list object it is.  Anything else is signature `C19:aliasing`.  The edits stay; the following steps of the
 session (fresh events, fresh rules) then show whether the package kept any of those containers.
 
+Earlier results.  What a call returned is remembered (as the consumer left it); after the NEXT call on other objects
+the returned list must still hold the same events and every event must read the same (`earlier_result_check`,
+signature `C19:aliasing`): no list or event of the package's own is handed out and recycled.
+
 A failing step is re-run in a fresh interpreter (`python -m harness.c19_hist judge <file>`): alone, after its session's
 prefix, after everything the process ran before; the history is minimised there (common.shrink_list) and the replay
 says whether it reproduced.
@@ -48,13 +52,12 @@ import copy
 import itertools
 import json
 import os
-import re
 import subprocess
 import sys
 import tempfile
 
 from . import common
-from .evutil import BASE, dt, mk_event
+from .evutil import BASE, dt
 
 ROUTES = ("direct", "registry", "query")
 Q2NAME = {"categorize": "categorize", "tag": "tag", "split": "split_url_events", "simplify": "simplify_window_titles"}
@@ -191,6 +194,7 @@ class Live:
         self.out = None          # the list the previous call returned
         self.classes = None      # the rule list object of the previous call, (route, kind, rule dict values)
         self.cmeta = None
+        self.kept = None         # what the previous call handed out, as the consumer left it
 
 
 class Rec:
@@ -319,7 +323,10 @@ def _run_query(env, C, step, r, live, spec_events):
             r.res = ("ok", fastcopy([C.view(e) for e in out]))
             r.out = out
         except Exception as ex:  # noqa: BLE001
-            r.res = ("err", type(ex).__name__)
+            name = type(ex).__name__
+            if name == "QueryInterpretException" and "invalid amount of arguments" in str(ex):
+                name = "TypeError"       # QFunction.interpret reports ANY TypeError of the call this way
+            r.res = ("err", name)
     finally:
         env.ds.delete_bucket(bid)
     live.out = r.out
@@ -545,6 +552,41 @@ def tuple_(kv):
     return kv[0], kv[1]
 
 
+def keep_result(C, r, live):
+    """remember what the call handed out (as it is after the consumer's edits)"""
+    live.kept = None
+    if r.res[0] == "ok" and type(r.out) is list:
+        try:
+            live.kept = (r.out, list(r.out), [fastcopy(C._norm(C.view(e))) for e in r.out], r.kind, r.route)
+        except Exception:  # noqa: BLE001
+            pass
+
+
+def earlier_result_check(C, live, st):
+    """What a call returned belongs to the caller: a later call on OTHER objects leaves it as it is (no list or event
+    of the package's own is handed out and recycled).  -> None | description"""
+    k = live.kept
+    if k is None or st.get("reuse_events") or st.get("reuse_classes"):
+        return None
+    out, elems, views, kind, route = k
+    what = "%s by route %s" % (kind, route)
+    now_call = "%s by route %s" % (st["kind"], st["route"])
+    if len(out) != len(elems) or any(a is not b for a, b in zip(out, elems)):
+        return ("aliasing: the list returned by the previous call (%s) has other elements after the next call (%s, on new "
+                "objects): %d -> %d elements; the model: every call returns a new list (split_url_events: the caller's own)"
+                % (what, now_call, len(elems), len(out)))
+    for i, e in enumerate(elems):
+        try:
+            now = C._norm(C.view(e))
+        except Exception:  # noqa: BLE001
+            now = None
+        if not C.same(now, views[i]):
+            a, b = _brief(views[i], now)
+            return ("aliasing: event %d returned by the previous call (%s) changed when the next call (%s) was made on new "
+                    "objects: %r -> %r; the model: a call writes the data dicts of ITS events only" % (i, what, now_call, a, b))
+    return None
+
+
 # --------------------------------------------------------------------------- judging in a fresh process, replays
 
 
@@ -568,12 +610,16 @@ def judge_steps(env, C, steps, verbose=False):
             bad = "malformed: %s" % type(ex).__name__
         if bad:
             v = ("C19:" + bad.split(":")[0], bad)
+        earlier = earlier_result_check(C, live, st)
+        if earlier and v is None:
+            v = ("C19:aliasing", earlier)
         if st.get("mutate"):
             iso = isolation_check(C, r)
             if r.route == "direct":
                 live.classes = None          # the Rule objects hold the edited select_keys lists
             if iso and v is None:
                 v = ("C19:aliasing", iso[0])
+        keep_result(C, r, live)
         if verbose:
             print("step %d  %s by %s  %s" % (k, st["kind"], st["route"], "ok" if v is None else "FAILS " + v[1]))
             if r.program:
@@ -767,6 +813,9 @@ class Runner:
             failed = []
             self.process(r.case, r.res, r.objs if st["kind"] == "simplify" else None,
                          on_bad=lambda bad: failed.append(("C19:" + bad.split(":")[0], bad, {"impl_output": r.res})))
+            earlier = earlier_result_check(C, live, st)
+            if earlier:
+                failed.append(("C19:aliasing", earlier, {}))
             if st.get("mutate"):
                 iso = isolation_check(C, r)
                 if r.route == "direct":
@@ -774,6 +823,7 @@ class Runner:
                 ck.count("hist:isolation-checked")
                 if iso:
                     failed.append(("C19:aliasing", iso[0], iso[1]))
+            keep_result(C, r, live)
             for sig, desc, detail in failed[:1]:
                 self.report(sig, desc, detail, prefix, st, r)
             prefix.append(st)
@@ -1013,8 +1063,27 @@ def gen_big_sessions(n=BIG_N):
            {"kind": "simplify", "route": "registry", "events": evs, "key": "title", "big": True}]
 
 
+def gen_error_sessions():
+    """the calls that raise (simplify_string: missing key, non-str value; split_url_events: what urlparse raises), by every
+    route, each followed by a call that returns: the exception class is compared with the model, the events annotated
+    before the exception stay annotated"""
+    bad = [("simplify", [[("title", "(1) a"), ("app", "x")], [("title", 5), ("app", "b")]]),
+           ("simplify", [[("title", "(1) a")], [("app", "b")]]),
+           ("simplify", [[("title", None)]]),
+           ("split", [[("url", "http://www.ok.org/x")], [("url", "http://[::1")], [("url", "http://www.b.org")]]),
+           ("split", [[("url", "http://www.ok.org/x")], [("url", 5)]]),
+           ("split", [[("url", None), ("title", "t")]])]
+    n = 0
+    for kind, evs in bad:
+        for route in ROUTES:
+            n += 1
+            yield [ab_step(kind, route, evs, n), ab_step(kind, route, B_EVENTS, n, mutate=True),
+                   ab_step(("categorize", "tag")[n % 2], route, evs, n)]
+
+
 def sessions(C, rng, tier):
     yield from gen_rule_variant_sessions(tier)
+    yield from gen_error_sessions()
     yield from gen_mutation_sessions(tier)
     yield from gen_reuse_sessions(tier)
     yield from gen_random_sessions(C, rng, 250 if tier == "quick" else 6000)
